@@ -29,11 +29,13 @@ Section RefSpec.
   Qed.
 
   (** the reference sequential merge meets the specification assumed of multiway_merge_base (stable) *)
-  Lemma seqmerge_ref_spec : seqmerge_stable_spec ltb (seqmerge_ref ltb).
+  Lemma seqmerge_ref_spec_at sent : seqmerge_stable_spec_at ltb (seqmerge_ref ltb) sent.
   Proof.
-    intros sent cs n _ _. unfold seqmerge_ref. cbn [fst].
+    intros cs n _ _. unfold seqmerge_ref. cbn [fst].
     rewrite <- firstn_map. unfold smerge_t. now rewrite smerge_t_fst.
   Qed.
+  Lemma seqmerge_ref_spec : seqmerge_stable_spec ltb (seqmerge_ref ltb).
+  Proof. apply seqmerge_ref_spec_at. Qed.
 End RefSpec.
 
 (** ** A worked instance: two sequences with ties across them, every hypothesis discharged. *)
